@@ -117,6 +117,45 @@ def absurd(rng):
     ])
 
 
+def error_paths(rng):
+    """small erroneous (and sometimes valid) descriptions that walk the error paths of the layout code with
+    every kind of predecessor: named fields, `_` fields, unknown<N> gaps, padding from explicit addresses,
+    bases, own vftable pointer -- overlapping / misaligned addresses, sizes and alignments that do not fit"""
+    prims = [("u8", 1), ("u16", 2), ("u32", 4), ("u64", 8), ("*const u8", 4), ("[u16; 3]", 6), ("[u64; 0]", 0)]
+    body = []
+    cur = 0
+    if rng.random() < 0.3:
+        body.append("    vftable { fn f(&self); }")
+        cur = 4
+    pre = ""
+    if rng.random() < 0.25:
+        pre = "type B0 { pub x: u32 }\n"
+        body.append("    #[base] %s: B0" % rng.choice(["b", "_", "base"]))
+        cur += 4
+    for i in range(rng.randint(1, 4)):
+        t, sz = rng.choice(prims)
+        k = rng.random()
+        name = "_" if k < 0.4 else "f%d" % i
+        if k < 0.15:
+            body.append("    _: unknown<%d>" % rng.choice([0, 1, 3, 8]))
+            continue
+        attr = ""
+        if rng.random() < 0.6:
+            addr = max(0, cur + rng.choice([-9, -4, -1, 0, 0, 1, 2, 4, 8]))
+            attr = "#[address(%s)] " % rng.choice([str(addr), hex(addr)])
+            cur = addr
+        body.append("    %s%s%s: %s" % (attr, "pub " if rng.random() < 0.5 else "", name, t))
+        cur += sz
+    attrs = []
+    if rng.random() < 0.4:
+        attrs.append("size(%d)" % max(0, cur + rng.choice([-8, -1, 0, 0, 1, 4])))
+    if rng.random() < 0.3:
+        attrs.append("align(%d)" % rng.choice([0, 1, 2, 3, 4, 8, 16, 24]))
+    if rng.random() < 0.2:
+        attrs.append("packed")
+    return pre + ("#[%s]\n" % ", ".join(attrs) if attrs else "") + "type T {\n" + ",\n".join(body) + "\n}\n"
+
+
 def api_cases(rng, n):
     """module sets given as ASTs with unusual pointer sizes / repeated modules / odd identifiers"""
     out = []
@@ -171,8 +210,10 @@ def runner(pid, prop, tier, seed, scratch, replay=None):
                 files, kind = {"a.pyxis": deep(rng)}, "deep_or_long"
             elif k == 8:
                 files, kind = {"a.pyxis": cyclic(rng), "b/c.pyxis": "use a;\ntype X { p: *const C0 }\n"}, "cyclic"
-            else:
+            elif i % 20 == 9:
                 files, kind = {"a.pyxis": absurd(rng)}, "absurd_numbers"
+            else:
+                files, kind = {"a.pyxis": error_paths(rng)}, "error_paths"
             cases.append(dict(id="c12-%d" % i, ptr=ptr, schedule=[], files=files, kind=kind))
         cases += [dict(c, kind="api") for c in api_cases(rng, 60 if tier == "quick" else 600)]
     results = engine.run(cases, scratch)
